@@ -18,6 +18,7 @@ fn main() {
     let mut sub = None;
     let mut replay: Option<PathBuf> = None;
     let mut write_evidence = true;
+    let mut fuzz_file: Option<PathBuf> = None;
     let mut i = 0;
     while i < args.len() {
         let a = args[i].as_str();
@@ -39,6 +40,7 @@ fn main() {
             "--sub" => sub = Some(next()),
             "--replay" => replay = Some(PathBuf::from(next())),
             "--no-evidence" => write_evidence = false,
+            "--fuzz-file" => fuzz_file = Some(PathBuf::from(next())),
             "--list-subs" => {
                 let id = prop.clone().unwrap_or_else(|| usage());
                 if let Some(p) = verif_harness::props::by_id(&id) {
@@ -74,6 +76,23 @@ fn main() {
         println!("INCONCLUSIVE watchdog: run exceeded {cap}s");
         std::process::exit(2);
     });
+    if let Some(f) = fuzz_file {
+        // replay a libFuzzer artefact (bytes -> pass-through RNG -> case) against one sub-check
+        let data = std::fs::read(&f).expect("read fuzz file");
+        let subname = sub.clone().unwrap_or_else(|| usage());
+        let s = p.subs.iter().find(|s| s.name() == subname).unwrap_or_else(|| usage());
+        match s.run_bytes(&data, tier, p.id) {
+            None => {
+                println!("FUZZ-FILE-PASS");
+                std::process::exit(0)
+            }
+            Some(fl) => {
+                println!("DETAIL signature={} :: {}", fl.violation.signature, fl.violation.detail.replace('\n', " "));
+                println!("CASE {}", fl.case);
+                std::process::exit(1)
+            }
+        }
+    }
     let code = if let Some(f) = replay {
         run_replay(&p, &f, tier)
     } else {
